@@ -1002,6 +1002,23 @@ impl Context {
             Some(VariableExpression::EnumValueUntyped(_, _)) => {
                 panic!("Non-untyped enum value ended up in parent scope")
             }
+            Some(VariableExpression::Function(fns)) => {
+                // The name of an intrinsic may be reused but not the name of a declared function
+                for existing_id in fns.overloads {
+                    let is_intrinsic = self
+                        .module
+                        .function_registry
+                        .get_intrinsic_data(existing_id)
+                        .is_some();
+                    if !is_intrinsic {
+                        return Err(TyperError::ValueAlreadyDefined(
+                            name.clone(),
+                            ErrorType::Unknown,
+                            ErrorType::Unknown,
+                        ));
+                    }
+                }
+            }
             _ => {}
         };
 
